@@ -1,9 +1,95 @@
 import PersimVerif.Drv.Util
-/-! driver commands: MGH (stub until the model lands) -/
+import PersimVerif.Model.MGH
+/-!
+  driver commands for C05 (model at `Nat`):
+
+    mgh.lb <DX> <DY>                            → double_lb           (`find_lb`)
+    mgh.curv <DX> <d>                           → [K, kept row indices] (`find_largest_size_bounded_curvature`)
+    mgh.dists <D> <max_d>                       → rows as distributions
+    mgh.umax <distributions>                    → `find_unique_max_distributions`
+    mgh.feas <v_dist> <u_dist> <d>              → T/F                 (`check_assignment_feasibility`, d ≥ 1)
+    mgh.feas.exh <v_dist> <u_dist> <d>          → T/F                 exhaustive injection search on the expanded vectors
+    mgh.map <DX> <DY> <pi> <y0>                 → [[images],distortion]   (`construct_mapping`)
+    mgh.ubmin <DX> <DY> <perms> <y0s> <goal>    → [ub,mappings built]     (`find_ub_of_min_distortion`)
+    mgh.ub <DX> <DY> <pXY> <yXY> <pYX> <yYX> <lb> → [ub,k1,k2]            (`find_ub`)
+    mgh.est <DX> <DY> <pXY> <yXY> <pYX> <yYX>   → [double_lb,double_ub]  (`estimate`)
+    mgh.spec <DX> <DY>                          → exhaustive 2·mGH for |X|,|Y| ≤ 6
+
+  Shapes are checked here (square matrices, permutation entries and first images in range); anything
+  else is `bad-op`, so the model's `getD` defaults are never exercised.
+-/
 namespace PersimVerif.Drv.MGH
-open PersimVerif Val PersimVerif.Drv
+open PersimVerif Val PersimVerif.Drv PersimVerif.MGH
+
+def natMat? (v : Val) : Option Mat := do
+  let m ← matOf? asNat? v
+  if m.length > 0 && m.all (fun r => r.length == m.length) then pure m else none
+
+def natList? : Val → Option (List Nat) := listOf? asNat?
+
+def permsOk (n : Nat) (perms : List (List Nat)) : Bool :=
+  perms.all fun p => p.length == n && p.all (· < n)
+
+def exceptVal : Except Err Val → Val
+  | .ok v => v
+  | .error .stopIteration => err "StopIteration"
+  | .error .index => err "IndexError"
+  | .error .overflow => err "OverflowError"
 
 def handle : Handler
+  | "mgh.lb", [dx, dy] => do
+    let DX ← natMat? dx; let DY ← natMat? dy
+    pure (ofNat (findLb exactMul exactMul DX DY))
+  | "mgh.curv", [dx, d] => do
+    let DX ← natMat? dx; let d ← asNat? d
+    let r := largestBoundedCurvature exactMul DX (matMax DX) d
+    pure (.list [.list (r.1.map ofNats), ofNats r.2])
+  | "mgh.dists", [dm, md] => do
+    let D ← matOf? asNat? dm; let maxD ← asNat? md
+    if D.any (fun r => r.any (· > maxD)) then none
+    pure (.list ((rowsAsDistributions D maxD).map ofNats))
+  | "mgh.umax", [ds] => do
+    let D ← matOf? asNat? ds
+    pure (.list ((uniqueMaxDistributions D).map ofNats))
+  | "mgh.feas", [v, u, d] => do
+    let v ← natList? v; let u ← natList? u; let d ← asNat? d
+    if d == 0 then none
+    pure (ofBool (checkAssignmentFeasibility v u d))
+  | "mgh.feas.exh", [v, u, d] => do
+    let v ← natList? v; let u ← natList? u; let d ← asNat? d
+    if d == 0 then none
+    pure (ofBool (assignableBrute d (expandDistribution v) (expandDistribution u)))
+  | "mgh.map", [dx, dy, pi, y0] => do
+    let DX ← natMat? dx; let DY ← natMat? dy
+    let pi ← natList? pi; let y0 ← asNat? y0
+    if !(permsOk DX.length [pi]) || y0 ≥ DY.length then none
+    pure (exceptVal ((constructMapping DX DY pi y0).map fun r =>
+      .list [ofNats (r.1.map (·.2)), ofNat r.2]))
+  | "mgh.ubmin", [dx, dy, ps, ys, g] => do
+    let DX ← natMat? dx; let DY ← natMat? dy
+    let perms ← matOf? asNat? ps; let y0s ← natList? ys; let goal ← asNat? g
+    if !(permsOk DX.length perms) || y0s.any (· ≥ DY.length) then none
+    pure (exceptVal ((findUbOfMinDistortion DX DY perms y0s goal).map fun r => ofNats [r.1, r.2]))
+  | "mgh.ub", [dx, dy, p1, y1, p2, y2, lb] => do
+    let DX ← natMat? dx; let DY ← natMat? dy
+    let perms1 ← matOf? asNat? p1; let y0s1 ← natList? y1
+    let perms2 ← matOf? asNat? p2; let y0s2 ← natList? y2
+    let lb ← asNat? lb
+    if !(permsOk DX.length perms1) || y0s1.any (· ≥ DY.length) then none
+    if !(permsOk DY.length perms2) || y0s2.any (· ≥ DX.length) then none
+    pure (exceptVal ((findUb DX DY perms1 y0s1 perms2 y0s2 lb).map fun r => ofNats [r.1, r.2.1, r.2.2]))
+  | "mgh.est", [dx, dy, p1, y1, p2, y2] => do
+    let DX ← natMat? dx; let DY ← natMat? dy
+    let perms1 ← matOf? asNat? p1; let y0s1 ← natList? y1
+    let perms2 ← matOf? asNat? p2; let y0s2 ← natList? y2
+    if !(permsOk DX.length perms1) || y0s1.any (· ≥ DY.length) then none
+    if !(permsOk DY.length perms2) || y0s2.any (· ≥ DX.length) then none
+    pure (exceptVal ((estimate exactMul exactMul DX DY perms1 y0s1 perms2 y0s2).map
+      fun r => ofNats [r.1, r.2]))
+  | "mgh.spec", [dx, dy] => do
+    let DX ← natMat? dx; let DY ← natMat? dy
+    if DX.length > 6 || DY.length > 6 then none
+    (mgh2Brute DX DY).map ofNat
   | _, _ => none
 
 end PersimVerif.Drv.MGH
